@@ -339,6 +339,54 @@ def run_extra(ctx: Ctx):
                        "a gap or a predecessor list is answered from another edge's, scenario's or project's value")
 
 
+def readiness_exit_rule(ctx: Ctx, rule: str):
+    """A forward task is granted readiness only after EVERY edge was examined (round 8, C07-14: an early `return True` for a task
+    with a pinned start let it be placed before its predecessors, ahead of tasks that rank before it in the list schedule).
+    Every return of _asapReadyForScheduling that can be true is dominated by the head of the loop over getAllDependencies()
+    (it is the loop's normal exit), or is the all(...) over them, or is taken on the fact that there are no edges at all."""
+    repo = ctx.repo
+    rdy = repo.func("TaskScenario._asapReadyForScheduling")
+    gr = cfg_of(rdy)
+    loops_r = [l for l in own_nodes(rdy) if isinstance(l, ast.For) and "getAllDependencies" in norm(l.iter)]
+    edge_names = {norm(a.targets[0]) for a in own_nodes(rdy) if isinstance(a, ast.Assign) and len(a.targets) == 1
+                  and "getAllDependencies" in norm(a.value)}
+    for l in own_nodes(rdy):
+        if isinstance(l, ast.For) and norm(l.iter) in edge_names:
+            loops_r.append(l)
+    dom = gr.dominators()
+    hdrs = {gr.node_of(l).id for l in loops_r}
+    rets = [r for r in own_nodes(rdy) if isinstance(r, ast.Return)]
+    if not rets:
+        raise AnchorMissing("_asapReadyForScheduling: no return statement")
+
+    def empty_guard(r):
+        for i in own_nodes(rdy):
+            if isinstance(i, ast.If) and r in i.body:
+                t = i.test
+                if isinstance(t, ast.UnaryOp) and isinstance(t.op, ast.Not) and \
+                        (norm(t.operand) in edge_names or "getAllDependencies" in norm(t.operand)):
+                    return True
+        return False
+
+    n = 0
+    for r in rets:
+        v = r.value
+        if isinstance(v, ast.Constant) and v.value is False:
+            continue
+        n += 1
+        node = gr.node_of(r)
+        is_all = isinstance(v, ast.Call) and norm(v.func) == "all" and "getAllDependencies" in norm(v) or \
+            (isinstance(v, ast.Call) and norm(v.func) == "all" and any(e in norm(v) for e in edge_names))
+        ok = bool(hdrs & set(dom.get(node.id, ()))) or is_all or empty_guard(r)
+        ctx.ob(rule, f"{rdy.qual}: line {r.lineno} `{norm(r)}` is reached only through the loop over the edges", (rdy, r), ok,
+               "ready only after every edge was examined" if ok else
+               "readiness is granted on a path that never examines the predecessors: the task is placed before them (and before "
+               "tasks that rank ahead of it in the list schedule and compete for the same resource)",
+               key=key_of(rule, rdy, None, "ready exit " + norm(v)[:40]))
+    if not n:
+        raise AnchorMissing("_asapReadyForScheduling: no return that can be true")
+
+
 def run(ctx: Ctx):
     repo = ctx.repo
     sched = repo.func("TaskScenario.schedule")
